@@ -47,6 +47,8 @@ func main() {
 		cmdRace(os.Args[2:])
 	case "scen":
 		cmdScen(os.Args[2:])
+	case "rt":
+		cmdRT(os.Args[2:])
 	default:
 		fmt.Println("unknown command", os.Args[1])
 		os.Exit(2)
